@@ -209,7 +209,9 @@ ObsRec ==
                  mat |-> MaterialClass(pos.board)]
         e1 == IF "pseudo" \in Detail
               THEN [pseudo |-> {[m |-> m, k |-> KindOf(pos, m), gives |-> GivesCheck(pos, m),
-                                 nq0 |-> IsNonQuiet(pos, m, FALSE), nq1 |-> IsNonQuiet(pos, m, TRUE)] :
+                                 nq0 |-> IsNonQuiet(pos, m, FALSE), nq1 |-> IsNonQuiet(pos, m, TRUE),
+                                 c0 |-> GenClass(pos, m, FALSE), c1 |-> GenClass(pos, m, TRUE),
+                                 cap |-> IsCapture(pos, m)] :
                                    m \in PseudoLegal(pos)}]
               ELSE [pseudo |-> {}]
         e2 == IF "att" \in Detail
